@@ -1,11 +1,16 @@
 use crate::engine::{replay_prop, run_prop, RunOpts};
 
+pub mod common;
+pub mod c01;
+pub mod c07;
 pub mod c16;
 pub mod c17;
 
 macro_rules! dispatch {
     ($id:expr, $f:ident, $($arg:expr),*) => {
         match $id {
+            "C01" => $f(c01::C01, $($arg),*),
+            "C07" => $f(c07::C07, $($arg),*),
             "C16" => $f(c16::C16, $($arg),*),
             "C17" => $f(c17::C17, $($arg),*),
             other => {
